@@ -90,6 +90,10 @@ extern "C" int vf_sidx(int mi, int id);
 #else
 #define VF_NT_ID(MI, s) (s)
 #endif
+extern "C" void vf_probe(void);     // defined by the generated TU: logs what the root machine reports right now
+#ifdef VF_PROBE_ON
+#define VF_PROBE(phase, idx, fsm) vf_probe();
+#endif
 #ifndef VF_PROBE
 #define VF_PROBE(phase, idx, fsm)
 #endif
